@@ -32,6 +32,10 @@ def queries(tier):
                     variants.append(("%s_n%d_p%d_l%d" % (base, k, p, l), dd, "%d live elements, position %d, length %d elements (driver-side case split); source/no-source, relative offset and traits mode symbolic" % (k, p, l)))
             else:
                 variants.append((base, d0, "0..%d live elements symbolic, element-aligned byte position 0..20 and length 0..12 symbolic" % n0))
+            if not cf and not sh and op == "ARRAY_RESERVE":
+                for k in (1, 3):
+                    dd = dict(d0); dd.update({"POS_EL": 1, "LEN_EL": 2, "N0FIX": k, "RAWPRE": 1})
+                    variants.append(("%s_rawpre_n%d" % (base, k), dd, "raw buffer with %d*4 stale bytes re-reserved for the managed type" % k))
             if not cf and op in ("SET", "CUT", "INSERT"):
                 dd = dict(d0); dd["ALIGNED"] = 0
                 variants.append((base + "_unaligned", dd, "0..%d live elements, byte position 0..20 / length 0..12 with at least one not element-aligned" % n0))
